@@ -360,3 +360,56 @@ for _meta in ("None", "dict"):
     PSD_TASKS.append(FunctionTask(c, module_env=ENV, registry={"Psd._check_input": _static_check}, label=f"hvsrpy.psd.Psd.__init__[meta={_meta}]",
                                   clauses=["a Psd holds exactly the frequencies and densities it is given"]))
 ALL_TASKS = TASKS + PSD_TASKS
+
+# ---------------------------------------------------------------- HvsrTraditional.from_hvsr_curves
+# row i of the table handed to the constructor is the curve of entry i, the frequencies are those of the first entry, the metadata the caller's; an entry that is
+# not similar to the first is refused.  (Not used by the library's own pipeline; part of the public interface.)
+NCV = z3.Int("n_hvsr_curves")
+IN_C = z3.Const("input_curve_ids", z3.ArraySort(I, I))
+SIMC = z3.Function("curve_is_similar", I, I, B)
+META_ID = z3.Int("meta_given")
+
+
+def _fhc_inputs(ex, st):
+    st.env["cls"] = FuncV(_m_cls_table, "HvsrTraditional")
+    st.env["hvsr_curves"] = new_symlist(ex, st, "HvsrCurve", length=NCV, arr=IN_C, owner="param:hvsr_curves", name="hvsr_curves")
+    st.env["meta"] = META_ID
+    st.env["__built"] = []
+    k = z3.Int("k!len")
+    # the similarity test of entry k includes "as many frequencies as the first entry" (HvsrCurve.is_similar); amplitude and frequency of a curve have one length (its constructor)
+    alen, flen = objects.arr_len("HvsrCurve", "amplitude", z3.Select(IN_C, k)), objects.arr_len("HvsrCurve", "frequency", z3.Select(IN_C, k))
+    f0 = objects.arr_len("HvsrCurve", "frequency", z3.Select(IN_C, 0))
+    return [NCV >= 1, z3.ForAll([k], z3.And(alen == flen, alen >= 0), patterns=[z3.Select(IN_C, k)]),
+            z3.ForAll([k], z3.Implies(SIMC(z3.Select(IN_C, k), z3.Select(IN_C, 0)), flen == f0), patterns=[SIMC(z3.Select(IN_C, k), z3.Select(IN_C, 0))])]
+
+
+def _m_cls_table(ex, st, args, kw, node):
+    fr, am = ex.arr(st, args[0]), ex.arr(st, args[1])
+    st.env["__built"] = st.env["__built"] + [(fr, am, kw.get("meta", NONE))]
+    return z3.IntVal(1)
+
+
+def _built_ok(ex, st, a, k, n_):
+    b = st.env["__built"]
+    if len(b) != 1:
+        return z3.BoolVal(False)
+    fr, am, meta = b[0]
+    i, j = z3.Ints("i!b j!b")
+    c0 = z3.Select(IN_C, 0)
+    nf = objects.arr_len("HvsrCurve", "frequency", c0)
+    return z3.And(fr.shape[0] == nf, z3.ForAll([j], z3.Implies(z3.And(j >= 0, j < nf), ex.sel1(fr, j) == objects.arr_at("HvsrCurve", "frequency", c0, j))),
+                  am.shape[0] == NCV, am.shape[1] == nf,
+                  z3.ForAll([i, j], z3.Implies(z3.And(i >= 0, i < NCV, j >= 0, j < nf), ex.sel2(am, i, j) == objects.arr_at("HvsrCurve", "amplitude", z3.Select(IN_C, i), j))),
+                  z3.BoolVal(meta is not NONE) and lit(meta) == META_ID)
+
+
+FHC = Contract(qual="hvsrpy.hvsr_traditional.HvsrTraditional.from_hvsr_curves", params=["cls", "hvsr_curves", "meta"], make_inputs=_fhc_inputs,
+               ghost={"built_ok": FuncV(_built_ok, "built_ok"), "NCV": NCV, "SIM0": lambda i: SIMC(z3.Select(IN_C, i), z3.Select(IN_C, 0)),
+                      "ROWV": FuncV(lambda ex, st, a, k, n_: objects.arr_at("HvsrCurve", "amplitude", z3.Select(IN_C, lit(a[0])), lit(a[1])), "ROWV"),
+                      "NF0": objects.arr_len("HvsrCurve", "frequency", z3.Select(IN_C, 0))},
+               loops={0: ["forall(i, 0, _k0, SIM0(i))", "forall(i, 0, _k0, forall(j, 0, NF0, amplitude[i, j] == ROWV(i, j)))"]}, stable_shapes=("amplitude",),
+               ensures=["built_ok()", "result == 1", "forall(i, 0, NCV, SIM0(i))"], raises_only_if={"ValueError": "exists(i, 0, NCV, not SIM0(i))"}, modifies=[],
+               notes="the constructor receives the first entry's frequencies, a table whose row i is entry i's curve, and the caller's metadata; an entry that is not similar to the first is refused")
+TASKS.append(FunctionTask(FHC, registry={"HvsrCurve.is_similar": FuncV(lambda ex, st, a, k, n_: SIMC(a[0].id, a[1].id), "HvsrCurve.is_similar")},
+                          label="hvsrpy.hvsr_traditional.HvsrTraditional.from_hvsr_curves", clauses=["curves given one by one become the rows of a result, in order"]))
+ALL_TASKS = TASKS + PSD_TASKS
